@@ -80,6 +80,8 @@ static void check_ring_pairs(Run& run, const ProjDataInfoCylindrical& p)
   const int R = p.get_scanner_ptr()->get_num_rings();
   const int smin = p.get_min_segment_num(), smax = p.get_max_segment_num();
   auto covering = [&](int rd) { int n = 0; for (int s = smin; s <= smax; ++s) if (rd >= p.get_min_ring_difference(s) && rd <= p.get_max_ring_difference(s)) ++n; return n; };
+  std::vector<int> ncov_by_rd((size_t)(2 * R - 1)); // covering() tabulated (it is evaluated for every ring pair)
+  for (int rd = -(R - 1); rd <= R - 1; ++rd) ncov_by_rd[(size_t)(rd + R - 1)] = covering(rd);
   // occurrences of every ring pair in the lists
   std::vector<std::vector<std::pair<int, int>>> occ((size_t)R * R);
   long long n_sa = 0, n_sa2 = 0, n_rp = 0, n_rp_unc = 0;
@@ -108,7 +110,7 @@ static void check_ring_pairs(Run& run, const ProjDataInfoCylindrical& p)
     for (int r2 = 0; r2 < R; ++r2)
       {
         const int rd = r2 - r1; // STIR's convention: ring difference = ring2 - ring1
-        const int ncov = covering(rd);
+        const int ncov = ncov_by_rd[(size_t)(rd + R - 1)];
         int s = 0, a = 0;
         const bool ok = p.get_segment_axial_pos_num_for_ring_pair(s, a, r1, r2) == Succeeded::yes;
         auto& o = occ[(size_t)r1 * R + r2];
@@ -696,8 +698,8 @@ static std::vector<std::string> enumerate(bool thorough)
         gen("gen", D, R, 0, thorough);
       }
   // block 1b: real ring geometries (ring spacings / ring counts of the scanner database), Michelogram tables only
-  add_real_ring_geometries(out, thorough);
-  if (!thorough) return out;
+  // (thorough: appended after block 4, so that the distribution of the expensive configurations over the shards stays as it was)
+  if (!thorough) { add_real_ring_geometries(out, false); return out; }
   // block 2 (axial factor): small D, R up to 8, every span / max ring difference / segment reduction
   for (int D : { 4, 8 })
     for (int R : { 5, 6, 7, 8 }) gen("cyl", D, R, 0, false);
@@ -750,6 +752,7 @@ static std::vector<std::string> enumerate(bool thorough)
               out.push_back(c.str());
             }
     }
+  add_real_ring_geometries(out, true);
   return out;
 }
 
